@@ -154,7 +154,9 @@ func Mutate(base Bearer, i int, now int64, host string) Bearer {
 
 // RawBearers is the malformed stream: header values that are not tokens at all.
 func RawBearers(goodToken string) []Bearer {
-	raw := func(s, shape, label string) Bearer { return Bearer{Kind: "raw", Raw: s, RawShape: shape, Label: "raw:" + label} }
+	raw := func(s, shape, label string) Bearer {
+		return Bearer{Kind: "raw", Raw: s, RawShape: shape, Label: "raw:" + label}
+	}
 	return []Bearer{
 		{Kind: "none", Label: "raw:no-header"},
 		raw("", "NoHeader", "empty-value"),
